@@ -106,13 +106,13 @@ package reedsolomon
 
 // ---------------------------------------------------------------- field operations against the tables
 // wfGF: the representation invariant established for the six fields by the lemmas above
-//@ pred wfGF(f *GenericGF) = f.size >= 2 && len(f.expTable) == f.size && len(f.logTable) == f.size && (forall i int :: 0 <= i && i < f.size ==> 0 <= f.expTable[i] && f.expTable[i] < f.size) && (forall x int :: 1 <= x && x < f.size ==> 0 <= f.logTable[x] && f.logTable[x] <= f.size - 2)
+//@ pred wfGF(f *GenericGF) = f.size >= 2 && len(f.expTable) == f.size && len(f.logTable) == f.size && (forall i int :: 0 <= i && i < f.size ==> 1 <= f.expTable[i] && f.expTable[i] < f.size) && (forall x int :: 1 <= x && x < f.size ==> 0 <= f.logTable[x] && f.logTable[x] <= f.size - 2)
 //@ spec func tmul(f *GenericGF, a int, b int) int = (a == 0 || b == 0) ? 0 : f.expTable[(f.logTable[a] + f.logTable[b]) % (f.size - 1)]
 
 //@ func (this *GenericGF) Multiply(a int, b int) (r int)
 //@   property C04
 //@   requires wfGF(this) && 0 <= a && a < this.size && 0 <= b && b < this.size
-//@   ensures r == tmul(this, a, b) && 0 <= r && r < this.size
+//@   ensures r == tmul(this, a, b) && 0 <= r && r < this.size && (a != 0 && b != 0 ==> r != 0)
 //@   modifies nothing
 
 //@ func (this *GenericGF) Inverse(a int) (r int, e error)
@@ -220,3 +220,192 @@ package reedsolomon
 //@   opt fuel=10
 //@   proof cases a 0 255, b 0 255
 //@   ensures tmul(GenericGF_DATA_MATRIX_FIELD_256, a, b) == mulp(a, b, 0x12D, 256, 8)
+
+// ---------------------------------------------------------------- polynomials over the field and the systematic encoder
+// wfGF2: wfGF plus the facts the polynomial layer needs: size is a power of two (so XOR stays inside the field),
+// exp never yields 0 (no zero divisors), and the cached zero polynomial is the constant 0 of this field
+//@ pred wfGF2(f *GenericGF) = wfGF(f) && f.size & (f.size - 1) == 0 && f.size <= 4096 && f.zero != nil && f.zero.field == f && len(f.zero.coefficients) == 1 && f.zero.coefficients[0] == 0
+//@ pred coeffsInTo(c []int, n int, f *GenericGF) = forall j int :: off(c) <= j && j < off(c) + n ==> 0 <= cell(c, j) && cell(c, j) < f.size
+//@ pred coeffsIn(c []int, f *GenericGF) = coeffsInTo(c, len(c), f)
+//@ pred wfPoly(p *GenericGFPoly) = p.field != nil && wfGF2(p.field) && len(p.coefficients) >= 1 && (len(p.coefficients) == 1 || p.coefficients[0] != 0) && coeffsIn(p.coefficients, p.field)
+
+//@ lemma wfField4()
+//@   property C04
+//@   globals GenericGF_AZTEC_PARAM
+//@   mode bv
+//@   ensures GenericGF_AZTEC_PARAM != nil && wfGF2(GenericGF_AZTEC_PARAM)
+//@ lemma wfField6()
+//@   property C04
+//@   globals GenericGF_AZTEC_DATA_6
+//@   mode bv
+//@   ensures GenericGF_AZTEC_DATA_6 != nil && wfGF2(GenericGF_AZTEC_DATA_6)
+//@ lemma wfFieldQR()
+//@   property C04
+//@   globals GenericGF_QR_CODE_FIELD_256
+//@   mode bv
+//@   ensures GenericGF_QR_CODE_FIELD_256 != nil && wfGF2(GenericGF_QR_CODE_FIELD_256)
+//@ lemma wfFieldDM()
+//@   property C04 C08
+//@   globals GenericGF_DATA_MATRIX_FIELD_256
+//@   mode bv
+//@   ensures GenericGF_DATA_MATRIX_FIELD_256 != nil && wfGF2(GenericGF_DATA_MATRIX_FIELD_256)
+//@ lemma wfField10()
+//@   property C04
+//@   globals GenericGF_AZTEC_DATA_10
+//@   mode bv
+//@   ensures GenericGF_AZTEC_DATA_10 != nil && wfGF2(GenericGF_AZTEC_DATA_10)
+//@ lemma wfField12()
+//@   property C04
+//@   globals GenericGF_AZTEC_DATA_12
+//@   mode bv
+//@   ensures GenericGF_AZTEC_DATA_12 != nil && wfGF2(GenericGF_AZTEC_DATA_12)
+
+// XOR of two field elements is a field element (the size is a power of two); proved on 64-bit vectors
+//@ lemma xorRange(a int, b int, n int)
+//@   property C04
+//@   mode bv
+//@   requires 0 <= a && a < n && 0 <= b && b < n && n & (n - 1) == 0
+//@   ensures 0 <= a ^ b && a ^ b < n
+
+//@ lemma xorZero(x int)
+//@   property C04
+//@   mode bv
+//@   ensures 0 ^ x == x
+
+//@ func NewGenericGFPoly(field *GenericGF, coefficients []int) (r *GenericGFPoly, e error)
+//@   property C04
+//@   requires field != nil && wfGF2(field) && coeffsIn(coefficients, field)
+//@   ensures (len(coefficients) == 0) == (e != nil)
+//@   ensures e == nil ==> r != nil && fresh(r) && wfPoly(r) && r.field == field && len(r.coefficients) <= len(coefficients)
+//@   ensures e == nil && coefficients[0] != 0 ==> len(r.coefficients) == len(coefficients)
+//@   ensures e == nil ==> arr(r.coefficients) == arr(coefficients) || fresh(r.coefficients)
+//@   ensures e == nil ==> forall k int :: 0 <= k && k < len(r.coefficients) ==> r.coefficients[len(r.coefficients)-1-k] == coefficients[len(coefficients)-1-k]
+//@   ensures e == nil ==> forall k int :: 0 <= k && k < len(coefficients) - len(r.coefficients) ==> coefficients[k] == 0
+//@   modifies nothing
+//@   loop 0: invariant 1 <= firstNonZero && firstNonZero <= coefficientsLength && (forall k int :: 0 <= k && k < firstNonZero ==> coefficients[k] == 0)
+//@   loop 0: decreases coefficientsLength - firstNonZero
+
+//@ func (this *GenericGF) BuildMonomial(degree int, coefficient int) (r *GenericGFPoly, e error)
+//@   property C04
+//@   requires wfGF2(this) && 0 <= coefficient && coefficient < this.size
+//@   ensures (degree < 0) == (e != nil)
+//@   ensures e == nil ==> r != nil && wfPoly(r) && r.field == this
+//@   ensures e == nil && coefficient != 0 ==> len(r.coefficients) == degree + 1 && r.coefficients[0] == coefficient
+//@   ensures e == nil ==> r == this.zero || fresh(r.coefficients)
+//@   modifies nothing
+
+//@ func (this *GenericGFPoly) AddOrSubtract(other *GenericGFPoly) (r *GenericGFPoly, e error)
+//@   property C04
+//@   requires other != nil && wfPoly(this) && wfPoly(other)
+//@   ensures (this.field != other.field) == (e != nil)
+//@   ensures e == nil ==> r != nil && wfPoly(r) && r.field == this.field && len(r.coefficients) <= max(len(this.coefficients), len(other.coefficients))
+//@   ensures e == nil ==> r == this || r == other || fresh(r.coefficients)
+//@   modifies nothing
+//@   loop 0: invariant lengthDiff <= i && i <= len(largerCoefficients) && len(sumDiff) == len(largerCoefficients) && fresh(sumDiff) && lengthDiff == len(largerCoefficients) - len(smallerCoefficients) && lengthDiff >= 0
+//@   loop 0: invariant coeffsInTo(sumDiff, i, this.field) && coeffsIn(smallerCoefficients, this.field) && coeffsIn(largerCoefficients, this.field)
+//@   loop 0: use xorRange(smallerCoefficients[i-lengthDiff], largerCoefficients[i], this.field.size)
+//@   loop 0: decreases len(largerCoefficients) - i
+
+//@ func (this *GenericGFPoly) MultiplyByMonomial(degree int, coefficient int) (r *GenericGFPoly, e error)
+//@   property C04
+//@   requires wfPoly(this) && 0 <= coefficient && coefficient < this.field.size
+//@   ensures (degree < 0) == (e != nil)
+//@   ensures e == nil ==> r != nil && wfPoly(r) && r.field == this.field && len(r.coefficients) <= len(this.coefficients) + degree
+//@   ensures e == nil && coefficient != 0 && this.coefficients[0] != 0 ==> len(r.coefficients) == len(this.coefficients) + degree
+//@   ensures e == nil ==> r == this.field.zero || fresh(r.coefficients)
+//@   modifies nothing
+//@   loop 0: invariant 0 <= i && i <= size && size == len(this.coefficients) && len(product) == size + degree && fresh(product) && degree >= 0
+//@   loop 0: invariant coeffsIn(product, this.field) && (i >= 1 && this.coefficients[0] != 0 ==> product[0] != 0)
+//@   loop 0: decreases size - i
+
+//@ func (this *GenericGFPoly) Multiply(other *GenericGFPoly) (r *GenericGFPoly, e error)
+//@   property C04
+//@   requires other != nil && wfPoly(this) && wfPoly(other)
+//@   ensures (this.field != other.field) == (e != nil)
+//@   ensures e == nil ==> r != nil && wfPoly(r) && r.field == this.field && len(r.coefficients) <= len(this.coefficients) + len(other.coefficients) - 1
+//@   ensures e == nil && this.coefficients[0] != 0 && other.coefficients[0] != 0 ==> len(r.coefficients) == len(this.coefficients) + len(other.coefficients) - 1
+//@   ensures e == nil ==> r == this.field.zero || fresh(r.coefficients)
+//@   modifies nothing
+//@   loop 0: invariant 0 <= i && i <= aLength && aLength == len(aCoefficients) && bLength == len(bCoefficients) && len(product) == aLength + bLength - 1 && fresh(product) && aLength >= 1 && bLength >= 1
+//@   loop 0: invariant coeffsIn(product, this.field) && coeffsIn(aCoefficients, this.field) && coeffsIn(bCoefficients, this.field)
+//@   loop 0: invariant i >= 1 ==> product[0] != 0
+//@   loop 0: invariant i == 0 ==> product[0] == 0
+//@   loop 0: invariant aCoefficients[0] != 0 && bCoefficients[0] != 0
+//@   loop 0: decreases aLength - i
+//@   loop 1: invariant 0 <= j && j <= bLength && 0 <= i && i < aLength && aLength == len(aCoefficients) && bLength == len(bCoefficients) && len(product) == aLength + bLength - 1 && fresh(product) && aCoeff == aCoefficients[i]
+//@   loop 1: invariant coeffsIn(product, this.field) && coeffsIn(aCoefficients, this.field) && coeffsIn(bCoefficients, this.field)
+//@   loop 1: invariant (i >= 1 || j >= 1) ==> product[0] != 0
+//@   loop 1: invariant (i == 0 && j == 0) ==> product[0] == 0
+//@   loop 1: invariant aCoefficients[0] != 0 && bCoefficients[0] != 0
+//@   loop 1: use xorRange(product[i+j], tmul(this.field, aCoeff, bCoefficients[j]), this.field.size)
+//@   loop 1: use xorZero(tmul(this.field, aCoeff, bCoefficients[j]))
+//@   loop 1: decreases bLength - j
+
+// Divide: partial correctness of the long division; the remainder is well formed and either zero or of smaller degree
+// than the divisor (this is what bounds the parity symbols in Encode). Termination of the loop is not proved.
+//@ func (this *GenericGFPoly) Divide(other *GenericGFPoly) (quotient *GenericGFPoly, remainder *GenericGFPoly, e error)
+//@   property C04
+//@   requires other != nil && wfPoly(this) && wfPoly(other)
+//@   ensures (this.field != other.field || other.coefficients[0] == 0) == (e != nil)
+//@   ensures e == nil ==> quotient != nil && wfPoly(quotient) && quotient.field == this.field
+//@   ensures e == nil ==> remainder != nil && wfPoly(remainder) && remainder.field == this.field && (len(remainder.coefficients) < len(other.coefficients) || remainder.coefficients[0] == 0)
+//@   ensures e == nil ==> remainder == this || remainder == this.field.zero || fresh(remainder.coefficients)
+//@   modifies nothing
+//@   loop 0: invariant quotient != nil && wfPoly(quotient) && quotient.field == this.field && remainder != nil && wfPoly(remainder) && remainder.field == this.field
+//@   loop 0: invariant 0 <= inverseDenominatorLeadingTerm && inverseDenominatorLeadingTerm < this.field.size && wfPoly(other) && wfPoly(this) && other.field == this.field
+//@   loop 0: invariant remainder == this || remainder == this.field.zero || fresh(remainder.coefficients)
+
+// the encoder: cachedGenerators[d] is a well-formed polynomial of degree exactly d over the encoder's field
+//@ pred wfEnc(c *ReedSolomonEncoder) = c.field != nil && wfGF2(c.field) && 0 <= c.field.generatorBase && c.field.generatorBase <= 1 && len(c.cachedGenerators) >= 1 && (forall d int :: 0 <= d && d < len(c.cachedGenerators) ==> c.cachedGenerators[d] != nil && wfPoly(c.cachedGenerators[d]) && c.cachedGenerators[d].field == c.field && len(c.cachedGenerators[d].coefficients) == d + 1 && c.cachedGenerators[d].coefficients[0] != 0)
+
+//@ func NewReedSolomonEncoder(field *GenericGF) (r *ReedSolomonEncoder)
+//@   property C04
+//@   requires field != nil && wfGF2(field) && 0 <= field.generatorBase && field.generatorBase <= 1
+//@   ensures r != nil && fresh(r) && wfEnc(r) && r.field == field
+//@   modifies nothing
+
+//@ func (this *ReedSolomonEncoder) buildGenerator(degree int) (r *GenericGFPoly)
+//@   property C04
+//@   requires wfEnc(this) && 0 <= degree && degree + this.field.generatorBase <= this.field.size
+//@   ensures wfEnc(this) && this.field == old(this.field) && r != nil && wfPoly(r) && r.field == this.field && len(r.coefficients) == degree + 1 && r.coefficients[0] != 0
+//@   ensures len(this.cachedGenerators) > degree && r == this.cachedGenerators[degree]
+//@   ensures forall k int :: 0 <= k && k < len(this.cachedGenerators) ==> (k < old(len(this.cachedGenerators)) && this.cachedGenerators[k] == old(this.cachedGenerators[k])) || fresh(this.cachedGenerators[k].coefficients)
+//@   modifies this.cachedGenerators, this.cachedGenerators[cap]
+//@   assert call(Multiply,0): poly != nil && wfPoly(poly) && poly.field == this.field && len(poly.coefficients) == 2 && poly.coefficients[0] != 0
+//@   assert call(Multiply,0): wfGF2(this.field)
+//@   assert call(Multiply,0): lastGenerator != nil && lastGenerator.field == this.field
+//@   assert call(Multiply,0): coeffsIn(lastGenerator.coefficients, this.field)
+//@   assert call(Multiply,0): wfPoly(lastGenerator)
+//@   loop 0: invariant fresh(this.cachedGenerators) || (arr(this.cachedGenerators) == old(arr(this.cachedGenerators)) && off(this.cachedGenerators) == old(off(this.cachedGenerators)) && cap(this.cachedGenerators) == old(cap(this.cachedGenerators)))
+//@   loop 0: invariant this.field != nil && wfGF2(this.field) && 0 <= this.field.generatorBase && this.field.generatorBase <= 1
+//@   loop 0: invariant forall k int :: 0 <= k && k < len(this.cachedGenerators) ==> this.cachedGenerators[k] != nil
+//@   loop 0: invariant forall k int :: 0 <= k && k < len(this.cachedGenerators) ==> this.cachedGenerators[k].field == this.field
+//@   loop 0: invariant forall k int :: 0 <= k && k < len(this.cachedGenerators) ==> len(this.cachedGenerators[k].coefficients) == k + 1
+//@   loop 0: invariant forall k int :: 0 <= k && k < len(this.cachedGenerators) ==> this.cachedGenerators[k].coefficients[0] != 0
+//@   loop 0: invariant forall k int :: 0 <= k && k < len(this.cachedGenerators) ==> coeffsIn(this.cachedGenerators[k].coefficients, this.field)
+//@   loop 0: invariant forall k int :: 0 <= k && k < len(this.cachedGenerators) ==> (k < size && this.cachedGenerators[k] == old(this.cachedGenerators[k])) || fresh(this.cachedGenerators[k].coefficients)
+//@   loop 0: invariant size == old(len(this.cachedGenerators))
+//@   loop 0: invariant wfEnc(this) && size <= d && d <= degree + 1 && len(this.cachedGenerators) == d && lastGenerator == this.cachedGenerators[d-1] && this.field == old(this.field)
+//@   loop 0: invariant lastGenerator != nil && wfPoly(lastGenerator) && lastGenerator.field == this.field && len(lastGenerator.coefficients) == d && lastGenerator.coefficients[0] != 0
+//@   loop 0: decreases degree + 1 - d
+
+// Encode (C04, systematic encoding): the data symbols are left unchanged, every parity symbol is a field element,
+// and the parity is the remainder of the division right-aligned behind the data (leading zeros filled in).
+// The buffer must not share memory with the encoder's own polynomials.
+//@ pred sepEnc(c *ReedSolomonEncoder, buf []int) = arr(buf) != arr(c.field.zero.coefficients) && arr(buf) != arr(c.field.expTable) && arr(buf) != arr(c.field.logTable) && (forall d int :: 0 <= d && d < len(c.cachedGenerators) ==> arr(buf) != arr(c.cachedGenerators[d].coefficients))
+//@ func (this *ReedSolomonEncoder) Encode(toEncode []int, ecBytes int) (e error)
+//@   property C04
+//@   requires wfEnc(this) && coeffsIn(toEncode, this.field) && len(toEncode) <= this.field.size - 1 && sepEnc(this, toEncode)
+//@   ensures (ecBytes <= 0 || len(toEncode) - ecBytes <= 0) == (e != nil)
+//@   ensures forall k int :: 0 <= k && k < len(toEncode) && (e != nil || k < len(toEncode) - ecBytes) ==> toEncode[k] == old(toEncode[k])
+//@   ensures coeffsIn(toEncode, this.field)
+//@   ensures wfEnc(this) && this.field == old(this.field)
+//@   internal e == nil ==> len(coefficients) <= ecBytes && numZeroCoefficients == ecBytes - len(coefficients) && dataBytes == len(toEncode) - ecBytes
+//@   internal e == nil ==> forall k int :: 0 <= k && k < len(coefficients) ==> toEncode[len(toEncode) - 1 - k] == coefficients[len(coefficients) - 1 - k]
+//@   internal e == nil ==> forall k int :: dataBytes <= k && k < len(toEncode) - len(coefficients) ==> toEncode[k] == 0
+//@   modifies toEncode[*], this.cachedGenerators, this.cachedGenerators[cap]
+//@   loop 0: invariant 0 <= i && (i <= numZeroCoefficients || numZeroCoefficients < 0) && (forall k int :: dataBytes <= k && k < dataBytes + i ==> toEncode[k] == 0)
+//@   loop 0: invariant forall k int :: 0 <= k && k < dataBytes ==> toEncode[k] == old(toEncode[k])
+//@   loop 0: invariant coeffsIn(toEncode, this.field)
+//@   loop 0: invariant wfEnc(this) && sepEnc(this, toEncode) && this.field == old(this.field)
+//@   loop 0: decreases numZeroCoefficients - i
